@@ -1,4 +1,4 @@
-(* Second inductive invariant (histories vs. configurations) and the C08 theorems about the
+(* Second group of inductive invariants (histories vs. configurations) of the
    access programs of Jobs/JobControl.v, for every list of clients and every schedule. *)
 From Coq Require Import ZArith List Bool Lia Arith.
 From Bardolph Require Import Jobs.Threads Jobs.ThreadsFacts Jobs.JobVocab Jobs.JobControl Jobs.JobControlSpec Jobs.JobControlInv.
